@@ -348,6 +348,8 @@ class ConcV:
         self.use_interp = use_interp   # Interp for the engine-vs-CPython differential
 
     def _take(self, name, gen):
+        if name in self.used:
+            return self.used[name]
         if name in self.given:
             v = self.given[name]
         else:
@@ -412,6 +414,9 @@ class ConcV:
             n = self.rng.randint(minlen, max(minlen, maxlen))
             lo_ = lo if lo is not None else -4
             hi_ = hi if hi is not None else lo_ + 8
+            if elem == "str":
+                pool = kw.get("pool") or ["A", "B", "C", "D", "E", "H2O", "Na+"]
+                return [self.rng.choice(pool) for _ in range(n)] if not kw.get("distinct") else self.rng.sample(pool, min(n, len(pool)))
             return [self.rng.randint(int(lo_), int(hi_)) if elem == "int" else self.rng.uniform(float(lo_), float(hi_)) for _ in range(n)]
         return [self._num(x) for x in self._take(name, gen)]
 
